@@ -15,6 +15,7 @@ mod status_writes;
 mod lock_sites;
 mod pure_fns;
 mod panic_sites;
+mod command_kinds;
 
 fn main() {
     let args: Vec<String> = std::env::args().collect();
@@ -34,6 +35,7 @@ fn main() {
         "status_writes" => status_writes::run(&repo),
         "lock_sites" => lock_sites::run(&repo),
         "panic_sites" => panic_sites::run(&repo),
+        "command_kinds" => command_kinds::run(&repo),
         t if t == "pure_fns" || t.starts_with("pure_fns:") => pure_fns::run(&repo, t),
         t => {
             eprintln!("unknown table {t}");
